@@ -55,3 +55,19 @@ package codescan
 //@ func removeEmptyLines
 //@ props C17
 //@ safety
+
+//@ func tagOptions.Name
+//@ props C16
+//@ pure
+//@ requires len(t) > 0
+//@ ensures result == t[0]
+
+//@ func parseJSONTag
+//@ props C16
+//@ requires field != nil && vs_wfTypeExpr(field.Type) && (len(field.Names) > 0 ==> field.Names[0] != nil)
+//@ ensures field.Tag == nil ==> err == nil && !ignore && !isString && !omitEmpty && name == vs_fieldName(field)
+//@ ensures vs_hasJSONTag(field) ==> err == nil
+//@ ensures vs_hasJSONTag(field) ==> omitEmpty == vs_jsonOpts(field).Contain("omitempty")
+//@ ensures vs_hasJSONTag(field) ==> isString == (vs_jsonOpts(field).Contain("string") && isFieldStringable(field.Type))
+//@ ensures vs_hasJSONTag(field) ==> ignore == (vs_jsonOpts(field).Name() == "-")
+//@ ensures vs_hasJSONTag(field) ==> name == vs_jsonName(field)
